@@ -186,7 +186,10 @@ const c26EqualRootsKey = "consistency-equal-roots-ignores-sizes"
 
 const c26Rule = "leaf hashes = sha256(seed,index); tree sizes exhaustive 1..96 (quick) / 1..600 (thorough) plus generated sizes up to 5000; every (leaf, size) and (old size, new size) pair for the small sizes; " +
 	"file-backed trees closed/reopened at generated sizes; generated single mutations of leaf hash / index / size / root / proof element / proof length; " +
-	"non-trivial = tree size not a power of two, or a mutated tuple; distinct = different (store kind, seed, sizes, index, mutation)"
+	"snapshot histories (store none/memory/file): appends (fresh or replayed leaves, Root() read after them or not), Marshal blobs saved at generated points with the reference root of that state, " +
+	"UnMarshal of any saved blob (same / older / newer state, abandoned branch) into the CURRENT used tree object with or without a cached root, into fresh objects (NewTree+UnMarshal, zero value, NewTree(size,hashes), another used object) " +
+	"and after reopening the hash file at the restored size, each followed by TreeSize / Root / GetRootWithNewLeaves(nil, k) / GetRootWithNewLeaf / proofs in a generated order before any append, judged against the reference of the restored state; " +
+	"non-trivial = tree size not a power of two, or a mutated tuple, or a history with a reload of another state or into another object; distinct = different (store kind, seed, sizes, index, mutation, operation sequence)"
 
 func c26Fail(t *testing.T, c interface{}, format string, args ...interface{}) {
 	t.Helper()
